@@ -383,6 +383,10 @@ pub fn dispatch(ctx: &mut Ctx, verb: &str, a: &[String]) -> Option<Out> {
                     _ => {}
                 }
             }
+            // optional 4th argument: the public list shortened to that many entries before writing (the file still holds 100 records)
+            if let Some(k) = a.get(3).and_then(|x| x.parse::<usize>().ok()) {
+                g.gearsets.truncate(k);
+            }
             let r = g.write_to_buffer();
             let re = r.as_ref().and_then(|b| physis::gearsets::GearSets::from_existing(b));
             ctx.done();
